@@ -71,3 +71,34 @@ func VerifC07SpecialPoints() (empty, full Point) { return emptyLoopPoint, fullLo
 func VerifC07Clipped(c *ShapeIndexCell) (containsCenter bool, numEdges int) {
 	return c.shapes[0].containsCenter, c.shapes[0].numEdges()
 }
+
+// VerifC07IndexCellIDs returns the cell ids of the loop's (built) index in iteration order.
+func VerifC07IndexCellIDs(l *Loop) []CellID {
+	var out []CellID
+	for it := l.index.Iterator(); !it.Done(); it.Next() {
+		out = append(out, it.CellID())
+	}
+	return out
+}
+
+// VerifC07Seek positions a rangeIterator over a's index with seekTo (beyond=false) or seekBeyond
+// (beyond=true) against a rangeIterator over b's index advanced to its bPos-th cell, and returns
+// the target's (rangeMin, cellID, rangeMax) and the resulting position in a's index
+// (len(cells) when done).
+func VerifC07Seek(a, b *Loop, bPos int, beyond bool) (tmin, tid, tmax CellID, pos int) {
+	ai := newRangeIterator(a.index)
+	bi := newRangeIterator(b.index)
+	for k := 0; k < bPos && !bi.done(); k++ {
+		bi.next()
+	}
+	if beyond {
+		ai.seekBeyond(bi)
+	} else {
+		ai.seekTo(bi)
+	}
+	pos = 0
+	for it := a.index.Iterator(); !it.Done() && it.CellID() != ai.cellID(); it.Next() {
+		pos++
+	}
+	return bi.rangeMin, bi.cellID(), bi.rangeMax, pos
+}
